@@ -69,4 +69,426 @@ theorem setLoop_sim (t : Bytes) : ∀ (ss : SetSt) (ms : MS), ss.sawdot = ms.saw
                 exact ih _ _ h1 rfl (by constructor <;> intro h <;> simp only [] at h <;> omega)
         · simp only [hd, Bool.false_eq_true, if_false, Option.map_some, h1, h2]
 
+/-! ### the digits `set` stores are the digits of the reference value -/
+
+structure SInv (ss : SetSt) (M F : Nat) : Prop where
+  v : valOf 10 ss.acc.reverse = M
+  len : ss.acc.length = ss.nd
+  dig : ss.acc.all isDec = true
+  d3 : ss.sawdot = true → (ss.nd : Int) - ss.dp = F
+  d4 : ss.sawdot = false → F = 0
+  lead : ∀ c cs, ss.acc.reverse = c :: cs → c ≠ 48
+  tr : ss.trunc = false
+
+theorem sinv_init : SInv {} 0 0 := by
+  constructor <;> simp [valOf]
+
+theorem refMant_ge (hex : Bool) (t : Bytes) : ∀ (M F : Nat) (dot : Bool), M ≤ (refMant hex t M F dot).1 := by
+  induction t with
+  | nil => intro M F dot; exact Nat.le_refl _
+  | cons c cs ih =>
+    intro M F dot
+    unfold refMant
+    simp only []
+    split
+    · exact ih _ _ _
+    · split
+      · exact ih _ _ _
+      · split
+        · have hb : 0 < (if hex = true then 16 else 10) := by split <;> decide
+          calc M ≤ M * (if hex = true then 16 else 10) := Nat.le_mul_of_pos_right _ hb
+            _ ≤ M * (if hex = true then 16 else 10) + digVal c := Nat.le_add_right _ _
+            _ ≤ _ := ih _ _ _
+        · exact Nat.le_refl _
+
+theorem setLoop_inv (t : Bytes) : ∀ (ss : SetSt) (M F : Nat), SInv ss M F →
+    (refMant false t M F ss.sawdot).1 < 10 ^ 800 →
+    ∀ ss' rest, setLoop t ss = some (ss', rest) →
+    SInv ss' (refMant false t M F ss.sawdot).1 (refMant false t M F ss.sawdot).2 := by
+  induction t with
+  | nil =>
+    intro ss M F inv _ ss' rest h
+    simp only [setLoop, Option.some.injEq, Prod.mk.injEq] at h
+    obtain ⟨rfl, _⟩ := h
+    simpa [refMant] using inv
+  | cons c cs ih =>
+    intro ss M F inv hlt ss' rest h
+    by_cases h95 : c = 95
+    · subst h95
+      rw [setLoop_us] at h; rw [refMant_us] at hlt ⊢
+      exact ih ss M F inv hlt ss' rest h
+    · have e95 : (c == 95) = false := by simpa using h95
+      unfold setLoop at h
+      simp only [e95, Bool.false_eq_true, if_false] at h
+      by_cases h46 : c = 46
+      · subst h46
+        rw [refMant_dot] at hlt ⊢
+        simp only [beq_self_eq_true, if_true] at h
+        by_cases hs : ss.sawdot = true
+        · simp [hs] at h
+        · simp only [Bool.not_eq_true] at hs
+          simp only [hs, Bool.false_eq_true, if_false] at h
+          have hF := inv.d4 hs
+          have inv' : SInv { ss with sawdot := true, dp := ss.nd } M F :=
+            ⟨inv.v, inv.len, inv.dig, fun _ => by simp [hF], fun h => by simp at h, inv.lead, inv.tr⟩
+          exact ih _ M F inv' hlt ss' rest h
+      · have e46 : (c == 46) = false := by simpa using h46
+        simp only [e46, Bool.false_eq_true, if_false] at h
+        rw [(mant_byte_facts c).1] at h
+        by_cases hdec : isDec c = true
+        · obtain ⟨hv, h9, _, _, h0⟩ := (mant_byte_facts c).2.1 hdec
+          have hdS : digS false c = true := hdec
+          rw [refMant_dig false c cs M F _ hdS] at hlt ⊢
+          have hb10 : baseOf false = 10 := rfl
+          rw [hb10] at hlt ⊢
+          simp only [hdec, if_true] at h
+          by_cases hz : (c == 48 && ss.nd == 0) = true
+          · simp only [hz, if_true] at h
+            simp only [Bool.and_eq_true, beq_iff_eq] at hz
+            have hd0 : digVal c = 0 := h0.mp (by simp [hz.1])
+            have hacc : ss.acc = [] := List.length_eq_zero_iff.mp (by rw [inv.len, hz.2])
+            have hM : M = 0 := by have := inv.v; rw [hacc] at this; simpa [valOf] using this.symm
+            have inv' : SInv { ss with sawdigits := true, dp := ss.dp - 1 } (M * 10 + digVal c) (if ss.sawdot then F + 1 else F) := by
+              refine ⟨by rw [hM, hd0]; simpa [hM] using inv.v, inv.len, inv.dig, fun hs => ?_, fun hs => ?_, inv.lead, inv.tr⟩
+              · have := inv.d3 hs
+                simp only at hs; simp only [hs, if_true]; push_cast; omega
+              · have := inv.d4 hs
+                simp only at hs; simp [hs, this]
+            exact ih _ _ _ inv' hlt ss' rest h
+          · simp only [hz, Bool.false_eq_true, if_false] at h
+            by_cases hcap : ss.nd < bufLen
+            · simp only [hcap, if_true] at h
+              have inv' : SInv { ss with sawdigits := true, acc := c :: ss.acc, nd := ss.nd + 1 }
+                  (M * 10 + digVal c) (if ss.sawdot then F + 1 else F) := by
+                refine ⟨?_, by simp [inv.len], by simp [hdec, inv.dig], fun hs => ?_, fun hs => ?_, ?_, inv.tr⟩
+                · show valOf 10 (c :: ss.acc).reverse = M * 10 + digVal c
+                  rw [List.reverse_cons, valOf_snoc, inv.v]
+                · have := inv.d3 hs
+                  simp only at hs; simp only [hs, if_true]; push_cast; omega
+                · have := inv.d4 hs
+                  simp only at hs; simp [hs, this]
+                · intro x xs hx
+                  simp only [List.reverse_cons] at hx
+                  cases hr : ss.acc.reverse with
+                  | nil =>
+                    rw [hr] at hx; simp at hx
+                    have hnd0 : ss.nd = 0 := by
+                      have : ss.acc = [] := by simpa using hr
+                      rw [← inv.len, this]; rfl
+                    intro h48
+                    apply hz
+                    simp [hx.1, h48, hnd0]
+                  | cons y ys =>
+                    rw [hr] at hx
+                    injection hx with hx _
+                    rw [← hx]; exact inv.lead y ys hr
+              exact ih _ _ _ inv' hlt ss' rest h
+            · -- the buffer is full: more than 800 significant digits, excluded by the bound
+              exfalso
+              have hb : bufLen = 800 := rfl
+              have hlen : 800 ≤ ss.acc.reverse.length := by rw [List.length_reverse, inv.len]; omega
+              have hMlo : 10 ^ 799 ≤ M := by
+                cases hr : ss.acc.reverse with
+                | nil => rw [hr] at hlen; simp at hlen
+                | cons y ys =>
+                  have hdy : isDec y = true := by
+                    have := inv.dig
+                    rw [← List.all_reverse, hr, List.all_cons, Bool.and_eq_true] at this
+                    exact this.1
+                  have := valOf_ge_of_head ss.acc.reverse y ys hr hdy (inv.lead y ys hr)
+                  rw [inv.v] at this
+                  calc 10 ^ 799 ≤ 10 ^ (ss.acc.reverse.length - 1) := Nat.pow_le_pow_right (by decide) (by omega)
+                    _ ≤ M := this
+              have hge := refMant_ge false cs (M * 10 + digVal c) (if ss.sawdot then F + 1 else F) ss.sawdot
+              have : (10 : Nat) ^ 800 = 10 ^ 799 * 10 := by rw [← Nat.pow_succ]
+              omega
+        · simp only [Bool.not_eq_true] at hdec
+          simp only [hdec, Bool.false_eq_true, if_false, Option.some.injEq, Prod.mk.injEq] at h
+          obtain ⟨rfl, _⟩ := h
+          have hdS : digS false c = false := hdec
+          rw [refMant_stop false (c :: cs) M F _ (Or.inr ⟨c, cs, rfl, h95, h46, hdS⟩)]
+          exact inv
+
+/-! ### `decimal.set` as a whole -/
+
+/-- the decimal `set` builds from its loop state and the exponent adjustment -/
+def mkDc (st : SetSt) (neg : Bool) (x : Int) : Dc :=
+  { d := st.acc.reverse, dp := (if !st.sawdot then (st.nd : Int) else st.dp) + x, neg := neg, trunc := st.trunc }
+
+theorem decSet_cons (c0 : UInt8) (tl : Bytes) :
+    decSet (c0 :: tl) =
+      match setLoop (bodyOf c0 tl) {} with
+      | none => none
+      | some (st, rest) =>
+        if !st.sawdigits then none
+        else (tailAdj false rest).map (fun x => mkDc st (c0 == 45) x) := by
+  unfold decSet bodyOf
+  simp only []
+  cases hs : setLoop (if (c0 == 43 || c0 == 45) = true then tl else c0 :: tl) {} with
+  | none => rfl
+  | some p =>
+    obtain ⟨st, rest⟩ := p
+    simp only []
+    by_cases hsd : st.sawdigits = true
+    · simp only [hsd, Bool.not_true, Bool.false_eq_true, if_false]
+      unfold tailAdj mkDc
+      cases rest with
+      | nil => simp
+      | cons c r1 =>
+        simp only [Bool.false_eq_true, if_false]
+        by_cases hc : (lower c == 101) = true
+        · simp only [hc, if_true]
+          cases r1 with
+          | nil => simp [expPart]
+          | cons c1 r2 =>
+            unfold expPart
+            simp only []
+            cases hr3 : (if (c1 == 43 || c1 == 45) = true then r2 else c1 :: r2) with
+            | nil => simp
+            | cons c2 rr =>
+              simp only []
+              by_cases hd : (c2 < 48 || c2 > 57) = true
+              · simp [hd]
+              · simp only [hd, Bool.false_eq_true, if_false]
+                cases hr4 : (expLoop (c2 :: rr) 0).2 with
+                | nil =>
+                  have : expLoop (c2 :: rr) 0 = ((expLoop (c2 :: rr) 0).1, []) := by rw [← hr4]
+                  rw [this]; simp
+                | cons a b =>
+                  have : expLoop (c2 :: rr) 0 = ((expLoop (c2 :: rr) 0).1, a :: b) := by rw [← hr4]
+                  rw [this]; simp
+        · simp [hc]
+    · simp [hsd]
+
+/-- the body of `set` (after the sign) on a text obeying the underscore rule, against `parseBody` -/
+theorem setBody_spec (neg : Bool) (t : Bytes) (prev : Bool) (hu : underscoresOK isDec prev t = true) :
+    (parseBody isDec 10 101 1 false (strip t) = none →
+      (match setLoop t {} with
+        | none => (none : Option Dc)
+        | some (st, rest) => if !st.sawdigits then none else (tailAdj false rest).map (fun x => mkDc st neg x)) = none) ∧
+    (∀ M E, parseBody isDec 10 101 1 false (strip t) = some (M, E) → M < 10 ^ 800 →
+      valOf 10 (expLitDigits isDec (strip t)) < 10000 →
+      ∃ d, (match setLoop t {} with
+        | none => (none : Option Dc)
+        | some (st, rest) => if !st.sawdigits then none else (tailAdj false rest).map (fun x => mkDc st neg x)) = some d ∧
+        WF d ∧ d.trunc = false ∧ d.neg = neg ∧ (M = 0 → d.d = []) ∧
+        (M ≠ 0 → d.d ≠ [] ∧ dval d = (M : ℚ) * (10 : ℚ) ^ E)) := by
+  have hpb := parseBody_eq2 false (strip t)
+  have ed : digS false = isDec := rfl
+  have eb : baseOf false = 10 := rfl
+  simp only [ed, eb, Bool.false_eq_true, if_false] at hpb
+  rw [hpb]
+  have hsim := setLoop_sim t {} {} rfl rfl (by simp)
+  have hu' : underscoresOK (digS false) prev t = true := hu
+  rcases mant_phase false t with ⟨hm, r'', hr2⟩ | ⟨ms, rest, hm, hstrip, hsd, href⟩
+  · -- second point
+    rw [hm] at hsim
+    have hs : setLoop t {} = none := by
+      cases h : setLoop t {} with
+      | none => rfl
+      | some p => rw [h] at hsim; simp at hsim
+    rw [hs, ed] at *
+    rw [hr2, spTail_dot]
+    exact ⟨fun _ => rfl, fun M E h => by split at h <;> simp at h⟩
+  · rw [hm] at hsim
+    rw [ed] at hstrip hsd href
+    cases hs : setLoop t {} with
+    | none => rw [hs] at hsim; simp at hsim
+    | some p =>
+      obtain ⟨ss, rest'⟩ := p
+      rw [hs] at hsim
+      simp only [Option.map_some, Option.some.injEq, Prod.mk.injEq] at hsim
+      obtain ⟨hdot, hdig, hrest⟩ := hsim
+      subst hrest
+      simp only []
+      by_cases hnd : (((strip t).takeWhile isDec).isEmpty && (spFP isDec (strip t)).isEmpty) = true
+      · rw [if_pos hnd]
+        have : ss.sawdigits = false := by rw [hdig, hsd, hnd]; rfl
+        simp only [this, Bool.not_false, if_true]
+        exact ⟨fun _ => trivial, fun M E h => by cases h⟩
+      · rw [if_neg hnd]
+        have hsd' : ss.sawdigits = true := by
+          rw [hdig, hsd]; simp only [Bool.not_eq_true] at hnd; rw [hnd]; rfl
+        simp only [hsd', Bool.not_true, Bool.false_eq_true, if_false]
+        obtain ⟨t1, t2⟩ := tail_spec false rest' (mantLoop_rest false t {} ms rest' hm) (mantLoop_uok false t prev {} ms rest' hu' hm)
+        rw [hstrip] at t1 t2
+        cases hsp : spTail false (spR2 isDec (strip t)) with
+        | none =>
+          rw [t1 hsp]
+          exact ⟨fun _ => rfl, fun M E h => by simp at h⟩
+        | some x =>
+          obtain ⟨y, hy, hyx⟩ := t2 x hsp
+          rw [hy]
+          refine ⟨fun h => by simp at h, fun M E h hM hlit => ?_⟩
+          simp only [Option.map_some, Option.some.injEq, Prod.mk.injEq] at h
+          obtain ⟨hMe, hEe⟩ := h
+          have hyx' : y = x := hyx (by unfold expLitDigits at hlit; exact hlit)
+          have hrefM : (refMant false t 0 0 false).1 = M := by rw [href]; exact hMe
+          have sinv := setLoop_inv t {} 0 0 sinv_init (by show (refMant false t 0 0 false).1 < 10 ^ 800; rw [hrefM]; exact hM) ss rest' hs
+          have hsv : valOf 10 ss.acc.reverse = M := by
+            have := sinv.v; show valOf 10 ss.acc.reverse = M
+            rw [← hrefM]; exact this
+          have hF : (refMant false t 0 0 false).2 = (spFP isDec (strip t)).length := by rw [href]
+          refine ⟨mkDc ss neg y, rfl, ?_, sinv.tr, rfl, ?_, ?_⟩
+          · -- well-formed
+            refine ⟨by show ss.acc.reverse.all isDec = true; rw [List.all_reverse]; exact sinv.dig, ?_, sinv.lead⟩
+            show ss.acc.reverse.length ≤ bufLen
+            cases hr : ss.acc.reverse with
+            | nil => simp
+            | cons c0 cs0 =>
+              have hdc : isDec c0 = true := by
+                have := sinv.dig
+                rw [← List.all_reverse, hr, List.all_cons, Bool.and_eq_true] at this; exact this.1
+              have hlo := valOf_ge_of_head ss.acc.reverse c0 cs0 hr hdc (sinv.lead c0 cs0 hr)
+              rw [hsv, hr] at hlo
+              apply Classical.byContradiction; intro hgt
+              have : (10 : Nat) ^ 800 ≤ 10 ^ ((c0 :: cs0).length - 1) := Nat.pow_le_pow_right (by decide) (by
+                have : bufLen = 800 := rfl
+                omega)
+              omega
+          · intro hM0
+            show ss.acc.reverse = []
+            cases hr : ss.acc.reverse with
+            | nil => rfl
+            | cons c0 cs0 =>
+              have hdc : isDec c0 = true := by
+                have := sinv.dig
+                rw [← List.all_reverse, hr, List.all_cons, Bool.and_eq_true] at this; exact this.1
+              have hlo := valOf_ge_of_head ss.acc.reverse c0 cs0 hr hdc (sinv.lead c0 cs0 hr)
+              rw [hsv, hM0] at hlo
+              have := Nat.pow_pos (n := ss.acc.reverse.length - 1) (by decide : 0 < 10)
+              omega
+          · intro hM0
+            constructor
+            · show ss.acc.reverse ≠ []
+              intro hnil
+              rw [hnil] at hsv
+              exact hM0 (by simpa [valOf] using hsv.symm)
+            · show (valOf 10 ss.acc.reverse : ℚ) * (10 : ℚ) ^ ((if !ss.sawdot then (ss.nd : Int) else ss.dp) + y - (ss.acc.reverse.length : Int))
+                  = (M : ℚ) * (10 : ℚ) ^ E
+              rw [hsv]
+              congr 2
+              rw [List.length_reverse, sinv.len, hyx', ← hEe]
+              cases hsd0 : ss.sawdot
+              · have := sinv.d4 hsd0
+                rw [hF] at this
+                simp only [Bool.not_false, if_true, this]; push_cast; omega
+              · have := sinv.d3 hsd0
+                rw [hF] at this
+                simp only [Bool.not_true, Bool.false_eq_true, if_false]; push_cast; omega
+
+/-- `0x…`, `0b…`, `0o…`: `set` reads the `0`, stops at the letter and fails -/
+theorem setBody_zero_letter (neg : Bool) (x : UInt8) (r : Bytes)
+    (h95 : x ≠ 95) (h46 : x ≠ 46) (hd : isDec x = false) (he : (lower x == 101) = false) :
+    (match setLoop (48 :: x :: r) {} with
+      | none => (none : Option Dc)
+      | some (st, rest) => if !st.sawdigits then none else (tailAdj false rest).map (fun y => mkDc st neg y)) = none := by
+  obtain ⟨st2, _, g2, g3⟩ := mantLoop_block false [48] (by decide) {}
+  have hm : mantLoop false (48 :: x :: r) {} = some (st2, x :: r) := by
+    have := g3 (x :: r)
+    rw [List.singleton_append] at this
+    rw [this]
+    exact mantLoop_stop false (x :: r) st2 (Or.inr ⟨x, r, rfl, h95, h46, hd⟩)
+  have hsim := setLoop_sim (48 :: x :: r) {} {} rfl rfl (by simp)
+  rw [hm] at hsim
+  cases hs : setLoop (48 :: x :: r) {} with
+  | none => rfl
+  | some p =>
+    obtain ⟨ss, rest'⟩ := p
+    rw [hs] at hsim
+    simp only [Option.map_some, Option.some.injEq, Prod.mk.injEq] at hsim
+    obtain ⟨_, _, hrest⟩ := hsim
+    subst hrest
+    simp only []
+    have : tailAdj false (x :: r) = none := by unfold tailAdj; simp [he]
+    rw [this]
+    split <;> rfl
+
+/-- **`decimal.set` against the specification's recogniser**, for texts that passed
+`underscoreOK`: it fails exactly when the recogniser rejects the text or sees a hex literal;
+otherwise (mantissa of at most 800 significant digits, exponent literal below the clamp) it
+builds a well-formed, untruncated decimal with the numeral's sign and exact value. -/
+theorem decSet_spec (s : Bytes) (hu : underscoreOK s = true) :
+    (recognise s = none → decSet s = none) ∧
+    (∀ p, recognise s = some p → p.hex = true → decSet s = none) ∧
+    (∀ p, recognise s = some p → p.hex = false → p.mant < 10 ^ 800 → expLit s < 10000 →
+      ∃ d, decSet s = some d ∧ WF d ∧ d.trunc = false ∧ d.neg = p.neg ∧ (p.mant = 0 → d.d = []) ∧
+        (p.mant ≠ 0 → d.d ≠ [] ∧ dval d = valueOf p)) := by
+  cases s with
+  | nil =>
+    have : recognise [] = none := by decide
+    exact ⟨fun _ => rfl, fun p h => (by rw [this] at h; cases h), fun p h => (by rw [this] at h; cases h)⟩
+  | cons c0 tl =>
+    rw [underscoreOK_cons] at hu
+    rw [recognise_cons, decSet_cons]
+    unfold expLit
+    rw [splitSign_cons]
+    simp only []
+    generalize bodyOf c0 tl = body at *
+    rcases body_cases body with ⟨x, y, b, hb, hx⟩ | ⟨x, hb, hx⟩ | ⟨x, r, hb, hx⟩ | ⟨h1, h2, h3⟩
+    · -- hex literal: set fails
+      subst hb
+      have e1 : (lower x == 120) = true := by simp [hx]
+      have e2 : (lowerc x == 120) = true := by rw [← (prefix_byte_facts x).1]; exact e1
+      have hp : isHexPrefix (48 :: x :: y :: b) = true := by simp [isHexPrefix, e2]
+      obtain ⟨a1, a2, a3, a4⟩ := (prefix_byte_facts x).2.2 hx
+      have hnone := setBody_zero_letter (c0 == 45) x (y :: b) a1 a2 a3 a4
+      rw [hnone]
+      simp only [hp, if_true]
+      refine ⟨fun _ => (by first | rfl | trivial), fun p _ _ => (by first | rfl | trivial), fun p h hh => ?_⟩
+      exfalso
+      split at h
+      · cases h
+      · cases hpb : parseBody isHexDig 16 112 4 true (strip (List.drop 2 (48 :: x :: y :: b))) with
+        | none => rw [hpb] at h; cases h
+        | some q => rw [hpb] at h; simp only [Option.map_some, Option.some.injEq] at h; rw [← h] at hh; cases hh
+    · subst hb
+      have e1 : (lower x == 120) = true := by simp [hx]
+      have e2 : (lowerc x == 120) = true := by rw [← (prefix_byte_facts x).1]; exact e1
+      have hp : isHexPrefix [48, x] = true := by simp [isHexPrefix, e2]
+      obtain ⟨a1, a2, a3, a4⟩ := (prefix_byte_facts x).2.2 hx
+      have hnone := setBody_zero_letter (c0 == 45) x [] a1 a2 a3 a4
+      rw [hnone]
+      simp only [hp, if_true]
+      have hpb : parseBody isHexDig 16 112 4 true (strip (List.drop 2 [48, x])) = none := by
+        show parseBody isHexDig 16 112 4 true (strip []) = none
+        decide
+      rw [hpb]
+      exact ⟨fun _ => (by first | rfl | trivial), fun p _ _ => (by first | rfl | trivial), fun p h => (by split at h <;> cases h)⟩
+    · subst hb
+      obtain ⟨a1, a2, a3, a4, a5, a6, a7⟩ := (prefix_byte_facts x).2.1 hx
+      have e2 : (lowerc x == 120) = false := by simpa using a5
+      have hp : isHexPrefix (48 :: x :: r) = false := by simp [isHexPrefix, e2]
+      have hnone := setBody_zero_letter (c0 == 45) x r a1 a2 a3 a6
+      rw [hnone]
+      simp only [hp, Bool.false_eq_true, if_false]
+      rw [strip_zero_letter x r a1, parseBody_zero_letter x (strip r) a2 a3 a7]
+      exact ⟨fun _ => (by first | rfl | trivial), fun p _ _ => (by first | rfl | trivial), fun p h => (by split at h <;> cases h)⟩
+    · -- decimal
+      rw [h3, uloop_start] at hu
+      have ed : digS false = isDec := rfl
+      rw [ed] at hu
+      simp only [h1, Bool.false_eq_true, if_false, hu, Bool.not_true]
+      obtain ⟨k1, k2⟩ := setBody_spec (c0 == 45) body false hu
+      refine ⟨fun h => ?_, fun p h hh => ?_, fun p h hh hM hlit => ?_⟩
+      · cases hpb : parseBody isDec 10 101 1 false (strip body) with
+        | none => exact k1 hpb
+        | some q => rw [hpb] at h; cases h
+      · exfalso
+        cases hpb : parseBody isDec 10 101 1 false (strip body) with
+        | none => rw [hpb] at h; cases h
+        | some q => rw [hpb] at h; simp only [Option.map_some, Option.some.injEq] at h; rw [← h] at hh; cases hh
+      · cases hpb : parseBody isDec 10 101 1 false (strip body) with
+        | none => rw [hpb] at h; cases h
+        | some q =>
+          obtain ⟨M, E⟩ := q
+          rw [hpb] at h
+          simp only [Option.map_some, Option.some.injEq] at h
+          subst h
+          obtain ⟨d, e1, e2, e3, e4, e5, e6⟩ := k2 M E hpb hM hlit
+          refine ⟨d, e1, e2, e3, e4, e5, fun hm0 => ?_⟩
+          obtain ⟨f1, f2⟩ := e6 hm0
+          refine ⟨f1, ?_⟩
+          rw [f2]; unfold valueOf; simp
+
 end C03
